@@ -7,7 +7,7 @@ unknown helpers, the extracted program is rewritten: every call of a helper that
 
   * is a plain (non-trait, non-closure) function private to its module,
   * has a name no rule mentions (no word of lint/spec/*.py equals its last path segment) or does not exist in the
-    reference tree the rules were written against (lint/known_fns.txt),
+    reference tree the rules were written against (lint/reference.json),
   * is only ever *called directly* (never taken as a value), from at most MAX_SITES sites, and is not recursive,
 
 is replaced by the helper's MIR (locals and blocks renumbered, arguments bound by assignments, `return` turned into an
